@@ -359,6 +359,7 @@ def run(ctx):
     # a store that fails half-way (file size limit / disk full) must not cost any other message its file:
     # "an existing file is never overwritten or truncated" - nor removed
     streams.append(write_fault_stream(ctx, r))
+    streams.append(many_stores_stream(ctx, r))
 
     # the path a message takes in the server before it is stored: queue -> consumer task -> dispatch closure ->
     # to_thread(write_message).  server.main() in-process (harness/servermain.py), sessions ending at the same instant
@@ -457,6 +458,43 @@ def run(ctx):
     streams.append(p)
 
     return streams
+
+
+def many_stores_stream(ctx, r):
+    """a long-running process stores far more messages than it may hold files open: with the soft limit of open
+    descriptors lowered, several hundred stores (several per clock second) still give one file each"""
+    import resource
+    from senaite.astm import utils
+    ms = Stream("many-stores-few-descriptors")
+    soft, hard = resource.getrlimit(resource.RLIMIT_NOFILE)
+    for _ in range(3 if ctx.thorough else 1):
+        tmp = tempfile.mkdtemp(prefix="astm-c16m-")
+        d = os.path.join(tmp, "out", "sub")
+        n = r.choice([300, 420])
+        msgs = [(b"m%d" % i) if i % 3 else ("t%d-\u00e9" % i) for i in range(n)]
+        FakeDateTime.script = [BASE + _dt.timedelta(seconds=i // 7) for i in range(n)]
+        orig_dt = utils.datetime
+        utils.datetime = FakeDateTime
+        errs = []
+        used = len(os.listdir("/proc/self/fd"))
+        try:
+            resource.setrlimit(resource.RLIMIT_NOFILE, (used + 48, hard))
+            for m in msgs:
+                try:
+                    utils.write_message(m, d)
+                except Exception as e:  # noqa
+                    errs.append(repr(e)[:80])
+        finally:
+            resource.setrlimit(resource.RLIMIT_NOFILE, (soft, hard))
+            utils.datetime = orig_dt
+        after = listing(d) if os.path.isdir(d) else {}
+        case = {"stores": n, "descriptor_limit": used + 48}
+        ms.case(case)
+        if errs or sorted(after.values()) != sorted(payload_bytes(m) for m in msgs):
+            ms.fail(dict(case, files=len(after), errors=errs[:2]), "%d stores in one process gave %d files (%d raised: %s)" % (
+                n, len(after), len(errs), errs[0] if errs else "-"), "many-stores/lost")
+        shutil.rmtree(tmp, ignore_errors=True)
+    return ms
 
 
 def write_fault_stream(ctx, r):
